@@ -39,7 +39,7 @@ Answer(n, q) ==
     [] q.op = "Back"      -> FirstFrom(n, 1, 1)
     [] q.op = "Traverse"  -> LET r == TraverseSpec(n, q.p, <<>>) IN IF r.ok THEN Found(NodeAt(n, r.addr)) ELSE Missing
     [] q.op = "Unmarshal" -> UnmarshalSpec(n)
-    [] q.op = "IsEqual"   -> "nil"                             \* against an independently built copy
+    [] q.op = "IsEqual"   -> IF n.eqpol THEN "err" ELSE "nil"   \* against an independently built copy; an installed equality closure (rejecting) decides
     [] q.op = "Valid"     -> "ok"
     [] q.op = "Less"      -> B2S(LessSpec(n, q.i, q.j))
 
